@@ -325,6 +325,27 @@ def _crn_exec(case):
     return json.loads(r.stdout.strip().splitlines()[-1])
 
 
+def _runtime_result(case, consume):
+    """like _crn_result, for the worker-count helper (validate / balance cases are evaluated by the model too)"""
+    import time
+    p = _crn_cache_path(case)
+    if consume:
+        if os.path.exists(p) and time.time() - os.path.getmtime(p) < 900:
+            with open(p) as f:
+                res = json.load(f)
+            try:
+                os.remove(p)
+            except OSError:
+                pass
+            return res
+        return _runtime(case)
+    res = _runtime(case)
+    with open(p + ".tmp", "w") as f:
+        json.dump(res, f, default=str)
+    os.replace(p + ".tmp", p)
+    return json.loads(json.dumps(res, default=str))
+
+
 def _crn_cache_path(case):
     d = os.path.join(WORK, "C14-side", "crn-%d" % os.getppid())
     os.makedirs(d, exist_ok=True)
@@ -401,7 +422,15 @@ def _cfg(case):
 def coq_case(case):
     k = case["kind"]
     if k == "runtime":
-        return None
+        if case["what"] not in ("validate", "balance"):
+            return None
+        side = _read_side(case)
+        if side is None:
+            return "L []"
+        jobs = clist([cnat(j) for j in case["jobs"]])
+        if case["what"] == "validate":
+            return "run_validate %s %s" % (jobs, clist([clist([cbool(x) for x in col]) for col in side["cols"]]))
+        return "run_balance %s %s" % (jobs, clist([cbool(x) for x in side["verdicts"]]))
     if k == "cluster":
         graphs = [_cluster_graph(g) for g, _ in case["items"]]
         cls = _iso_classes(graphs)
@@ -565,9 +594,16 @@ def _oracle_cluster(case):
 
 
 def _oracle_runtime(case):
-    vals = _runtime(case)
+    vals = _runtime_result(case, consume=True) if case["what"] in ("validate", "balance") else _runtime(case)
+    vals = [[lab, v] for lab, v in vals if lab != "__ref__"]
     base = json.dumps(vals[0][1], sort_keys=True, default=str)
     fails = []
+    if case["what"] == "validate":
+        for lab, v in vals:
+            for col in v:
+                n_ = len(col["results"])
+                if n_ and abs(float(col["accuracy"]) - 100.0 * sum(1 for x in col["results"] if x) / n_) > 0.006:
+                    fails.append(dict(clause="validate-accuracy", detail="%s: accuracy %r but results %r" % (lab, col["accuracy"], col["results"])))
     for lab, v in vals[1:]:
         if json.dumps(v, sort_keys=True, default=str) != base:
             fails.append(dict(clause="workers-" + case["what"],
@@ -582,7 +618,20 @@ def oracle(case):
     return {"hist": _oracle_hist, "batch": _oracle_batch, "cluster": _oracle_cluster}[k](case)
 
 
-def _impl_runtime(case):      # noqa: F811  (the oracle runs the worker counts; nothing to compare with a model)
+def _impl_runtime(case):      # noqa: F811
+    """batch_jobs / syncrn: the oracle runs the worker counts, nothing to compare with a model.  validate / balance: the
+    per-row results of every worker count, compared with the rows-parallel model fed with the single-row verdicts."""
+    if case["what"] == "validate":
+        vals = _runtime_result(case, consume=False)
+        ref = [v for lab, v in vals if lab == "row-by-row check_pair"][0]
+        _write_side(case, dict(cols=[[bool(x) for x in col["results"]] for col in ref]))
+        return [[[[bool(x) for x in col["results"]], sum(1 for x in col["results"] if x), len(col["results"])] for col in v]
+                for lab, v in vals if lab.startswith("n_jobs=")]
+    if case["what"] == "balance":
+        vals = _runtime_result(case, consume=False)
+        ref = [v for lab, v in vals if lab == "__ref__"][0]
+        _write_side(case, dict(verdicts=[bool(x) for x in ref]))
+        return [[[d["n"] for d in v[0]], [d["n"] for d in v[1]]] for lab, v in vals if lab.startswith("n_jobs=")]
     return [0]
 
 
